@@ -46,6 +46,7 @@ properties! {
     "C10" => c10,
     "C11" => c11,
     "C12" => c12,
+    "C13" => c13,
     "C14" => c14,
     "C15" => c15,
     "C16" => c16,
